@@ -29,14 +29,17 @@ var (
 	OnceFunc       = sync.OnceFunc
 )
 
-// Hooks intercept pool operations.
+// Hooks intercept pool operations. While hooks are installed the caller
+// guarantees that only one goroutine at a time executes pool operations (the
+// controlled scheduler runs one thread at a time).
 type Hooks struct {
-	// Get is called instead of the real Get. items are the objects currently
-	// pooled (most recently returned last); it returns the index of the object
-	// to hand out, or -1 for a fresh object.
-	Get func(p *Pool, items []any) int
-	// Put is called before the object is returned to the pool.
-	Put func(p *Pool, x any)
+	// BeforeGet is a scheduling point; it then chooses which pooled object to
+	// hand out: n objects are pooled (most recently returned has index n-1);
+	// return an index in [0,n) or -1 for a fresh object.
+	BeforeGet func(p *Pool, n int) int
+	AfterGet  func(p *Pool)
+	BeforePut func(p *Pool)
+	AfterPut  func(p *Pool)
 }
 
 var hook atomic.Pointer[Hooks]
@@ -53,6 +56,31 @@ type Pool struct {
 	items []any // only used while hooks are installed
 }
 
+var poolsMu sync.Mutex
+var pools []*Pool
+
+// DrainAll empties the controlled item lists of every pool that was used under hooks.
+func DrainAll() {
+	poolsMu.Lock()
+	defer poolsMu.Unlock()
+	for _, p := range pools {
+		p.mu.Lock()
+		p.items = nil
+		p.mu.Unlock()
+	}
+}
+
+func (p *Pool) register() {
+	poolsMu.Lock()
+	defer poolsMu.Unlock()
+	for _, q := range pools {
+		if q == p {
+			return
+		}
+	}
+	pools = append(pools, p)
+}
+
 // Get mirrors sync.Pool.Get.
 func (p *Pool) Get() any {
 	h := hook.Load()
@@ -65,21 +93,25 @@ func (p *Pool) Get() any {
 		}
 		return nil
 	}
+	p.register()
 	p.mu.Lock()
-	items := append([]any(nil), p.items...)
+	n := len(p.items)
 	p.mu.Unlock()
-	i := h.Get(p, items)
+	i := h.BeforeGet(p, n)
+	var x any
 	p.mu.Lock()
-	defer p.mu.Unlock()
 	if i >= 0 && i < len(p.items) {
-		x := p.items[i]
-		p.items = append(p.items[:i], p.items[i+1:]...)
-		return x
+		x = p.items[i]
+		p.items = append(p.items[:i:i], p.items[i+1:]...)
 	}
-	if p.New != nil {
-		return p.New()
+	p.mu.Unlock()
+	if x == nil && p.New != nil {
+		x = p.New()
 	}
-	return nil
+	if h.AfterGet != nil {
+		h.AfterGet(p)
+	}
+	return x
 }
 
 // Put mirrors sync.Pool.Put.
@@ -89,15 +121,14 @@ func (p *Pool) Put(x any) {
 		p.real.Put(x)
 		return
 	}
-	h.Put(p, x)
+	p.register()
+	if h.BeforePut != nil {
+		h.BeforePut(p)
+	}
 	p.mu.Lock()
 	p.items = append(p.items, x)
 	p.mu.Unlock()
-}
-
-// Drain empties the controlled item list (between explorations).
-func (p *Pool) Drain() {
-	p.mu.Lock()
-	p.items = nil
-	p.mu.Unlock()
+	if h.AfterPut != nil {
+		h.AfterPut(p)
+	}
 }
